@@ -352,6 +352,30 @@ fn check_case(c: &SeqCase, obs: &mut Obs) -> Verdict {
             Err(p) => return Verdict::Fail(format!("bare run: {}", p)),
         }
     }
+    if stack == 0 && dl_of(c) == 0 && c.is_full() {
+        // the slice entry point is the same diff; and the very same slice on both sides is an
+        // ordinary input (finish once and last)
+        match guard(|| {
+            let mut a = Recorder::new();
+            similar::algorithms::diff_slices(alg_of(c.alg), &mut a, &c.old[..], &c.new[..]).unwrap();
+            let mut b = Recorder::new();
+            similar::algorithms::diff_slices(alg_of(c.alg), &mut b, &c.old[..], &c.old[..]).unwrap();
+            let copy = c.old.clone();
+            let mut b2 = Recorder::new();
+            similar::algorithms::diff_slices(alg_of(c.alg), &mut b2, &c.old[..], &copy[..]).unwrap();
+            (a.events, b.events, b2.events)
+        }) {
+            Ok((a, b, b2)) => {
+                if overrides && a != log {
+                    return Verdict::Fail(format!("{}: diff_slices calls {:?}, diff {:?}", name, a, log));
+                }
+                if b != b2 || b.iter().filter(|e| **e == Ev::Finish).count() != 1 || b.last() != Some(&Ev::Finish) {
+                    return Verdict::Fail(format!("{}: diff_slices with the very same slice on both sides calls {:?}, with an equal copy {:?}", name, b, b2));
+                }
+            }
+            Err(p) => return Verdict::Fail(format!("{}: diff_slices: {}", name, p)),
+        }
+    }
     if !overrides {
         // a hook that does not override replace sees delete followed by insert
         if log.iter().any(|e| matches!(e, Ev::Replace(..))) {
